@@ -16,7 +16,9 @@ if REPO not in sys.path:
 
 
 def repo_module(name):
-  return importlib.import_module(name)
+  import contextlib, io
+  with contextlib.redirect_stdout(io.StringIO()):   # concertina_lib prints on import
+    return importlib.import_module(name)
 
 
 class _Tx(ast.NodeTransformer):
@@ -79,6 +81,9 @@ def check_call(u, fn, args, self_obj=None, extra_env=None):
     env[p] = a
   if self_obj is not None:
     env['self'] = self_obj
+  for name, (params, text) in u.get('spec_funcs', {}).items():
+    if name not in env:
+      env[name] = eval('lambda %s: (%s)' % (', '.join(params), text), env)
   for r in u.get('requires', []):
     code, _ = compile_clause(r)
     try:
